@@ -92,6 +92,8 @@ def run(ctx):
              ('shoc_standard', dict(nj=1, ni=1, holes='none', invalid=False)), ('ugrid', dict(w=1, h=1, invalid=False)),
              ('shoc_simple', dict(ny=3, nx=4, bounds=False, holes='random')),
              ('shoc_standard', dict(nj=3, ni=3, holes='corner')), ('shoc_standard', dict(nj=2, ni=3, invalid=True)),
+             ('shoc_standard', dict(nj=4, ni=4, holes='river', invalid=False, orphan_nodes=True)),
+             ('shoc_standard', dict(nj=4, ni=5, holes='random', invalid=False, orphan_nodes=True)),
              ('ugrid', dict(w=3, h=3)), ('ugrid', dict(w=2, h=2, invalid=True))]
     datasets = [gen.any_dataset(rng, f, **kw) for f, kw in fixed]
     # cells that do not share whole edges: a mesh with a hanging node (one tall cell beside two short ones), and stored
